@@ -436,6 +436,11 @@ def check(model, rep):
     r055(model, rep, ck)
     r056(model, rep, ck)
     r057(model, rep, ck)
+    from . import frames
+    rep.rule('R05.9', 'kinematics methods of Arm: every relative transform inv(A) @ B / globalToLocal(A, B) is taken between poses expressed in the same frame (world vs base)')
+    kin = [fi for name, fi in sorted(ck.arm.methods.items()) if not ('ynamics' in name or name in ('massMatrix', 'coriolisGravity'))]
+    n_fr = frames.check_methods(rep, 'R05.9', kin)
+    rep.count('R05.9 relative transforms with both frames known', n_fr)
     from .c02 import closure_obligations
     n = closure_obligations(model, rep, 'R05.8', [ck.arm.methods[m] for m in ('FK', 'FKJoint', 'FKLink', 'initialize', 'move') if m in ck.arm.methods],
                             'Arm forward kinematics (FKinSpace and the adjoint used on base changes)')
